@@ -3,6 +3,7 @@ Helper lemmas for C03 (the BST interpreter model `Model/Interp.lean`).
 -/
 import PybtexModel.Spec.BstSem
 import PybtexModel.Lemmas.CIMap
+import PybtexModel.Lemmas.Citations
 
 namespace Pybtex.Interp
 open Pybtex.BstSem
@@ -547,16 +548,16 @@ theorem varsPersist_set_gstr {v : CIDict VarObj} {name : Str} {a : Val} (b : Val
 /-! ### frames -/
 
 theorem _root_.Pybtex.BstSem.Frame.refl (s : St) : Frame s s :=
-  ⟨rfl, rfl, rfl, rfl, rfl, fun _ _ => rfl, VarsPersist.refl _, ⟨[], rfl⟩, List.prefix_refl _, List.prefix_refl _⟩
+  ⟨rfl, rfl, rfl, rfl, rfl, fun _ _ => rfl, VarsPersist.refl _, ⟨[], (List.append_nil _).symm, rfl⟩, List.prefix_refl _, List.prefix_refl _⟩
 
 theorem _root_.Pybtex.BstSem.Frame.trans {a b c : St} (h1 : Frame a b) (h2 : Frame b c) : Frame a c := by
   refine ⟨h2.cur.trans h1.cur, h2.db.trans h1.db, h2.citations.trans h1.citations, h2.macros.trans h1.macros,
     h2.preamble.trans h1.preamble, ?_, VarsPersist.trans h1.vars h2.vars, ?_, h1.reports.trans h2.reports, h1.printed.trans h2.printed⟩
   · intro k hk
     rw [h2.entry k (by rw [h1.cur]; exact hk), h1.entry k hk]
-  · obtain ⟨e1, he1⟩ := h1.out
-    obtain ⟨e2, he2⟩ := h2.out
-    exact ⟨e1 ++ e2, by rw [he2, he1, List.foldl_append]⟩
+  · obtain ⟨e1, ht1, he1⟩ := h1.out
+    obtain ⟨e2, ht2, he2⟩ := h2.out
+    exact ⟨e1 ++ e2, by rw [ht2, ht1, List.append_assoc], by rw [he2, he1, List.foldl_append]⟩
 
 theorem pop_eq {s s1 : St} {v : Val} (h : pop s = .ok (v, s1)) : s1 = { s with stack := s1.stack } ∧ s.stack = v :: s1.stack := by
   unfold pop at h
@@ -566,7 +567,7 @@ theorem pop_eq {s s1 : St} {v : Val} (h : pop s = .ok (v, s1)) : s1 = { s with s
 
 theorem pop_frame {s s1 : St} {v : Val} (h : pop s = .ok (v, s1)) : Frame s s1 := by
   rw [(pop_eq h).1]
-  exact ⟨rfl, rfl, rfl, rfl, rfl, fun _ _ => rfl, VarsPersist.refl _, ⟨[], rfl⟩, List.prefix_refl _, List.prefix_refl _⟩
+  exact ⟨rfl, rfl, rfl, rfl, rfl, fun _ _ => rfl, VarsPersist.refl _, ⟨[], (List.append_nil _).symm, rfl⟩, List.prefix_refl _, List.prefix_refl _⟩
 
 theorem popInt_frame {s s1 : St} {n : Int} (h : popInt s = .ok (n, s1)) : Frame s s1 := by
   unfold popInt at h
@@ -584,7 +585,7 @@ theorem popStr_frame {s s1 : St} {x : Str} (h : popStr s = .ok (x, s1)) : Frame 
   · cases h
 
 theorem _root_.Pybtex.BstSem.Frame.setEntryVar (s : St) (k n : Str) (v : Val) (hk : s.cur = some k) : Frame s (setEntryVar s k n v) := by
-  refine ⟨rfl, rfl, rfl, rfl, rfl, ?_, VarsPersist.refl _, ⟨[], rfl⟩, List.prefix_refl _, List.prefix_refl _⟩
+  refine ⟨rfl, rfl, rfl, rfl, rfl, ?_, VarsPersist.refl _, ⟨[], (List.append_nil _).symm, rfl⟩, List.prefix_refl _, List.prefix_refl _⟩
   intro k' hk'
   show dget (dset s.entryVars k _) k' = _
   exact dget_dset_ne _ _ _ _ (by rintro rfl; exact hk' hk)
@@ -592,11 +593,11 @@ theorem _root_.Pybtex.BstSem.Frame.setEntryVar (s : St) (k n : Str) (v : Val) (h
 /-- close a goal `Frame s X` where `X` is an explicit update of `s` -/
 macro "frame_leaf" : tactic => `(tactic| first
   | exact Frame.refl _
-  | exact ⟨rfl, rfl, rfl, rfl, rfl, fun _ _ => rfl, VarsPersist.refl _, ⟨[], rfl⟩, List.prefix_refl _, List.prefix_refl _⟩
-  | exact ⟨rfl, rfl, rfl, rfl, rfl, fun _ _ => rfl, VarsPersist.refl _, ⟨[], rfl⟩, List.prefix_append _ _, List.prefix_refl _⟩
-  | exact ⟨rfl, rfl, rfl, rfl, rfl, fun _ _ => rfl, VarsPersist.refl _, ⟨[], rfl⟩, List.prefix_refl _, List.prefix_append _ _⟩
-  | exact ⟨rfl, rfl, rfl, rfl, rfl, fun _ _ => rfl, VarsPersist.refl _, ⟨[.write _], rfl⟩, List.prefix_refl _, List.prefix_refl _⟩
-  | exact ⟨rfl, rfl, rfl, rfl, rfl, fun _ _ => rfl, VarsPersist.refl _, ⟨[.newline], rfl⟩, List.prefix_refl _, List.prefix_refl _⟩)
+  | exact ⟨rfl, rfl, rfl, rfl, rfl, fun _ _ => rfl, VarsPersist.refl _, ⟨[], (List.append_nil _).symm, rfl⟩, List.prefix_refl _, List.prefix_refl _⟩
+  | exact ⟨rfl, rfl, rfl, rfl, rfl, fun _ _ => rfl, VarsPersist.refl _, ⟨[], (List.append_nil _).symm, rfl⟩, List.prefix_append _ _, List.prefix_refl _⟩
+  | exact ⟨rfl, rfl, rfl, rfl, rfl, fun _ _ => rfl, VarsPersist.refl _, ⟨[], (List.append_nil _).symm, rfl⟩, List.prefix_refl _, List.prefix_append _ _⟩
+  | exact ⟨rfl, rfl, rfl, rfl, rfl, fun _ _ => rfl, VarsPersist.refl _, ⟨[.write _], rfl, rfl⟩, List.prefix_refl _, List.prefix_refl _⟩
+  | exact ⟨rfl, rfl, rfl, rfl, rfl, fun _ _ => rfl, VarsPersist.refl _, ⟨[.newline], rfl, rfl⟩, List.prefix_refl _, List.prefix_refl _⟩)
 
 /-- walk along the pops recorded in the context -/
 macro "frame_chain" : tactic => `(tactic| repeat (first
@@ -625,9 +626,9 @@ theorem prim_frame (f : Nat) (b : Builtin) (s s' : St) (hb : b ≠ .callType ∧
         all_goals first
           | (cases h; done)
           | (cases h
-             exact ⟨rfl, rfl, rfl, rfl, rfl, fun _ _ => rfl, varsPersist_set_gint _ (by assumption), ⟨[], rfl⟩, List.prefix_refl _, List.prefix_refl _⟩)
+             exact ⟨rfl, rfl, rfl, rfl, rfl, fun _ _ => rfl, varsPersist_set_gint _ (by assumption), ⟨[], (List.append_nil _).symm, rfl⟩, List.prefix_refl _, List.prefix_refl _⟩)
           | (cases h
-             exact ⟨rfl, rfl, rfl, rfl, rfl, fun _ _ => rfl, varsPersist_set_gstr _ (by assumption), ⟨[], rfl⟩, List.prefix_refl _, List.prefix_refl _⟩)
+             exact ⟨rfl, rfl, rfl, rfl, rfl, fun _ _ => rfl, varsPersist_set_gstr _ (by assumption), ⟨[], (List.append_nil _).symm, rfl⟩, List.prefix_refl _, List.prefix_refl _⟩)
           | (cases h; exact Frame.setEntryVar _ _ _ _ (by assumption))
   all_goals
     simp only [runBuiltin] at h
@@ -637,7 +638,7 @@ theorem prim_frame (f : Nat) (b : Builtin) (s s' : St) (hb : b ≠ .callType ∧
       | (cases h; frame_chain; frame_leaf)
 
 theorem frame_warn (s : St) (m : Str) : Frame s (warn s m) :=
-  ⟨rfl, rfl, rfl, rfl, rfl, fun _ _ => rfl, VarsPersist.refl _, ⟨[], rfl⟩, List.prefix_append _ _, List.prefix_refl _⟩
+  ⟨rfl, rfl, rfl, rfl, rfl, fun _ _ => rfl, VarsPersist.refl _, ⟨[], (List.append_nil _).symm, rfl⟩, List.prefix_append _ _, List.prefix_refl _⟩
 
 /-- what any execution preserves (all six mutually recursive functions) -/
 theorem exec_frame (n : Nat) :
@@ -866,7 +867,7 @@ theorem iterate_eq_fold (fuel : Nat) (o : VarObj) (db : BibData) (ks : List Str)
       have hx' := hx; simp only [hdb] at hx'
       simp only [iterate, foldEntries, hdb, hk, hx', Bool.not_true, Bool.false_eq_true, if_false]
       have := (exec_frame fuel).2.1 o _ _ hx
-      exact ih s1 (by rw [this.db]; exact hdb) (fun k' hk' => hks k' (List.mem_cons_of_mem _ hk'))
+      exact ih { s1 with cur := none } (by show s1.db = _; rw [this.db]; exact hdb) (fun k' hk' => hks k' (List.mem_cons_of_mem _ hk'))
 
 /-- the checks `_iterate` makes on the way (`self.bib_data.entries[key]`) when they do not hold -/
 theorem iterate_no_db (fuel : Nat) (o : VarObj) (k : Str) (ks : List Str) (s : St) (hdb : s.db = none) :
@@ -878,12 +879,12 @@ entry variables of the listed entries may change -/
 theorem iterate_frame (fuel : Nat) (o : VarObj) (ks : List Str) (s s' : St) (h : iterate fuel o ks s = .ok s') :
     s'.db = s.db ∧ s'.citations = s.citations ∧ s'.macros = s.macros ∧ s'.preamble = s.preamble ∧
     VarsPersist s.vars s'.vars ∧ (∀ k, k ∉ ks → dget s'.entryVars k = dget s.entryVars k) ∧
-    (∃ evs : List OutEv, (s'.lines, s'.buffer) = evs.foldl emit (s.lines, s.buffer)) ∧
+    (∃ evs : List OutEv, s'.trace = s.trace ++ evs ∧ (s'.lines, s'.buffer) = evs.foldl emit (s.lines, s.buffer)) ∧
     s.reports <+: s'.reports ∧ s.printed <+: s'.printed := by
   induction ks generalizing s with
   | nil =>
     cases h
-    exact ⟨rfl, rfl, rfl, rfl, VarsPersist.refl _, fun _ _ => rfl, ⟨[], rfl⟩, List.prefix_refl _, List.prefix_refl _⟩
+    exact ⟨rfl, rfl, rfl, rfl, VarsPersist.refl _, fun _ _ => rfl, ⟨[], (List.append_nil _).symm, rfl⟩, List.prefix_refl _, List.prefix_refl _⟩
   | cons k ks ih =>
     simp only [iterate] at h
     split at h
@@ -894,7 +895,7 @@ theorem iterate_frame (fuel : Nat) (o : VarObj) (ks : List Str) (s s' : St) (h :
         · cases h
         · rename_i s1 h1
           have fr := (exec_frame fuel).2.1 o _ _ h1
-          obtain ⟨a1, a2, a3, a4, a5, a6, a7, a8, a9⟩ := ih s1 h
+          obtain ⟨a1, a2, a3, a4, a5, a6, a7, a8, a9⟩ := ih { s1 with cur := none } h
           refine ⟨a1.trans fr.db, a2.trans fr.citations, a3.trans fr.macros, a4.trans fr.preamble,
             VarsPersist.trans fr.vars a5, ?_, ?_, fr.reports.trans a8, fr.printed.trans a9⟩
           · intro k' hk'
@@ -902,9 +903,10 @@ theorem iterate_frame (fuel : Nat) (o : VarObj) (ks : List Str) (s s' : St) (h :
             exact fr.entry k' (by
               show some k ≠ some k'
               intro he; cases he; exact hk' List.mem_cons_self)
-          · obtain ⟨e1, he1⟩ := fr.out
-            obtain ⟨e2, he2⟩ := a7
-            exact ⟨e1 ++ e2, by rw [he2, he1, List.foldl_append]⟩
+          · obtain ⟨e1, ht1, he1⟩ := fr.out
+            obtain ⟨e2, ht2, he2⟩ := a7
+            exact ⟨e1 ++ e2, by rw [ht2]; show s1.trace ++ _ = _; rw [ht1, List.append_assoc],
+              by rw [he2]; show e2.foldl emit (s1.lines, s1.buffer) = _; rw [he1, List.foldl_append]⟩
 
 /-! ### `SORT` -/
 
@@ -1194,7 +1196,7 @@ theorem overwrite_eq (v : VarObj) (ts : List BTok) (s s' : St) (h : overwrite v 
 
 theorem _root_.Pybtex.BstSem.CmdFrame.of_vars {c : Command} {s s' : St} (h : s' = { s with vars := s'.vars }) : CmdFrame c s s' := by
   rw [h]
-  exact ⟨⟨[], rfl⟩, List.prefix_refl _, List.prefix_refl _, fun _ => rfl, fun _ => List.Perm.refl _⟩
+  exact ⟨⟨[], (List.append_nil _).symm, rfl⟩, List.prefix_refl _, List.prefix_refl _, fun _ => rfl, fun _ => List.Perm.refl _⟩
 
 theorem _root_.Pybtex.BstSem.CmdFrame.of_frame {c : Command} {s s' : St} (h : Frame s s') : CmdFrame c s s' :=
   ⟨h.out, h.reports, h.printed, fun _ => h.db, fun _ => by rw [h.citations]⟩
@@ -1250,14 +1252,14 @@ theorem runCommand_frame (fuel : Nat) (inp : Input) (c : Command) (s s' : St) (h
               split at h
               · split at h
                 · cases h
-                  exact ⟨⟨[], rfl⟩, List.prefix_refl _, List.prefix_refl _, fun _ => rfl, fun _ => List.Perm.refl _⟩
+                  exact ⟨⟨[], (List.append_nil _).symm, rfl⟩, List.prefix_refl _, List.prefix_refl _, fun _ => rfl, fun _ => List.Perm.refl _⟩
                 · cases h
               · cases h
             · split at h
               · -- READ
                 rename_i hread
                 cases h
-                refine ⟨⟨[], rfl⟩, ?_, List.prefix_refl _, fun hn => absurd hread hn, fun hn => absurd hread hn⟩
+                refine ⟨⟨[], (List.append_nil _).symm, rfl⟩, ?_, List.prefix_refl _, fun hn => absurd hread hn, fun hn => absurd hread hn⟩
                 simp only [List.append_assoc]
                 exact List.prefix_append _ _
               · split at h
@@ -1275,24 +1277,25 @@ theorem runCommand_frame (fuel : Nat) (inp : Input) (c : Command) (s s' : St) (h
                     · cases h
                     · rename_i l hl
                       cases h
-                      exact ⟨⟨[], rfl⟩, List.prefix_refl _, List.prefix_refl _, fun _ => rfl,
+                      exact ⟨⟨[], (List.append_nil _).symm, rfl⟩, List.prefix_refl _, List.prefix_refl _, fun _ => rfl,
                         fun _ => (sort_spec s l hl).1⟩
                   · cases h
 
 theorem runProgram_frame (fuel : Nat) (inp : Input) (prog : Program) (s s' : St) (h : runProgram fuel inp prog s = .ok s') :
-    (∃ evs : List OutEv, (s'.lines, s'.buffer) = evs.foldl emit (s.lines, s.buffer)) ∧
+    (∃ evs : List OutEv, s'.trace = s.trace ++ evs ∧ (s'.lines, s'.buffer) = evs.foldl emit (s.lines, s.buffer)) ∧
     s.reports <+: s'.reports ∧ s.printed <+: s'.printed := by
   induction prog generalizing s with
-  | nil => cases h; exact ⟨⟨[], rfl⟩, List.prefix_refl _, List.prefix_refl _⟩
+  | nil => cases h; exact ⟨⟨[], (List.append_nil _).symm, rfl⟩, List.prefix_refl _, List.prefix_refl _⟩
   | cons c cs ih =>
     simp only [runProgram] at h
     split at h
     · cases h
     · rename_i s1 h1
       have f1 := runCommand_frame fuel inp c s s1 h1
-      obtain ⟨⟨e2, he2⟩, r2, p2⟩ := ih s1 h
-      obtain ⟨e1, he1⟩ := f1.out
-      exact ⟨⟨e1 ++ e2, by rw [he2, he1, List.foldl_append]⟩, f1.reports.trans r2, f1.printed.trans p2⟩
+      obtain ⟨⟨e2, ht2, he2⟩, r2, p2⟩ := ih s1 h
+      obtain ⟨e1, ht1, he1⟩ := f1.out
+      exact ⟨⟨e1 ++ e2, by rw [ht2, ht1, List.append_assoc], by rw [he2, he1, List.foldl_append]⟩,
+        f1.reports.trans r2, f1.printed.trans p2⟩
 
 theorem ready_of_read (fuel : Nat) (inp : Input) (c : Command) (s s' : St) (h : upper c.name = "READ".toList)
     (hr : runCommand fuel inp c s = .ok s') : Ready s' := (runCommand_read fuel inp c s s' h hr).1
@@ -1307,13 +1310,13 @@ theorem ready_preserved (fuel : Nat) (inp : Input) (c : Command) (s s' : St) (hs
 
 /-! ### only `write$` and `newline$` touch the output -/
 
-def SameOut (s s' : St) : Prop := s'.lines = s.lines ∧ s'.buffer = s.buffer
+def SameOut (s s' : St) : Prop := s'.lines = s.lines ∧ s'.buffer = s.buffer ∧ s'.trace = s.trace
 
 theorem SameOut.trans {a b c : St} (h1 : SameOut a b) (h2 : SameOut b c) : SameOut a c :=
-  ⟨h2.1.trans h1.1, h2.2.trans h1.2⟩
+  ⟨h2.1.trans h1.1, h2.2.1.trans h1.2.1, h2.2.2.trans h1.2.2⟩
 
 theorem pop_sameOut {s s1 : St} {v : Val} (h : pop s = .ok (v, s1)) : SameOut s s1 := by
-  rw [(pop_eq h).1]; exact ⟨rfl, rfl⟩
+  rw [(pop_eq h).1]; exact ⟨rfl, rfl, rfl⟩
 
 theorem popInt_sameOut {s s1 : St} {n : Int} (h : popInt s = .ok (n, s1)) : SameOut s s1 := by
   unfold popInt at h
@@ -1349,7 +1352,7 @@ theorem prim_sameOut (f : Nat) (b : Builtin) (s s' : St)
     repeat' (split at h)
     all_goals first
       | (cases h; done)
-      | (cases h; out_chain; exact ⟨rfl, rfl⟩)
+      | (cases h; out_chain; exact ⟨rfl, rfl, rfl⟩)
 
 /-! ### sequences of declarations (`ENTRY`) -/
 
@@ -1617,5 +1620,182 @@ theorem toksEq_iff : ∀ (x y : List BTok), toksEq x y = true ↔ x = y
     | nil => simp [toksEq]
     | cons b t => simp only [toksEq, Bool.and_eq_true, tokEq_iff a b, toksEq_iff r t, List.cons.injEq]
 end
+
+/-! ### `READ`: the database it builds is well formed (the hypothesis of the C05 / C14 theorems) -/
+
+theorem omap_set_mem {V : Type} (m : OMap V) (k : Str) (v : V) (t : Str × Str × V) (h : t ∈ OMap.set m k v) :
+    t ∈ m ∨ t = (lower k, k, v) := by
+  induction m with
+  | nil => simp only [OMap.set, List.mem_singleton] at h; exact .inr h
+  | cons e m ih =>
+    obtain ⟨l, sp, w⟩ := e
+    simp only [OMap.set] at h
+    split at h
+    · rename_i hl
+      rcases List.mem_cons.1 h with rfl | h
+      · exact .inr (by rw [hl])
+      · exact .inl (List.mem_cons_of_mem _ h)
+    · rcases List.mem_cons.1 h with rfl | h
+      · exact .inl List.mem_cons_self
+      · rcases ih h with h | h
+        · exact .inl (List.mem_cons_of_mem _ h)
+        · exact .inr h
+
+/-- the entry `convertDb` stores for a parsed entry -/
+def convEntry (e : Bib.Entry) : Pybtex.Entry :=
+  { key := e.key, type := e.type, fields := CIDict.ofPairs e.fields, persons := personsToStr e.persons }
+
+theorem convertDb_fold_wf (es : List Bib.Entry) (d : CIDict Pybtex.Entry) (hi : CIDict.Inv d)
+    (hk : ∀ t ∈ CIDict.abs d, t.2.2.key = t.2.1) (he : ∀ t ∈ CIDict.abs d, EntryWF t.2.2) :
+    let d' := es.foldl (fun d e => d.setItem e.key (convEntry e)) d
+    CIDict.Inv d' ∧ (∀ t ∈ CIDict.abs d', t.2.2.key = t.2.1) ∧ (∀ t ∈ CIDict.abs d', EntryWF t.2.2) := by
+  induction es generalizing d with
+  | nil => exact ⟨hi, hk, he⟩
+  | cons e es ih =>
+    simp only [List.foldl_cons]
+    apply ih
+    · exact CIDict.inv_setItem hi _ _
+    · intro t ht
+      rw [CIDict.abs_setItem hi] at ht
+      rcases omap_set_mem _ _ _ _ ht with h | rfl
+      · exact hk t h
+      · rfl
+    · intro t ht
+      rw [CIDict.abs_setItem hi] at ht
+      rcases omap_set_mem _ _ _ _ ht with h | rfl
+      · exact he t h
+      · exact ⟨(CIDict.ofPairs_spec _).1, (CIDict.ofPairs_spec _).1⟩
+
+/-- whatever the reader delivered, the database the interpreter works on is well formed -/
+theorem convertDb_wf (b : Bib.Db) : DbWF (convertDb b) := by
+  have := convertDb_fold_wf b.entries CIDict.empty CIDict.inv_empty (by intro t ht; cases ht) (by intro t ht; cases ht)
+  exact ⟨this.1, this.2.1, this.2.2⟩
+
+/-- the state `READ` leaves behind -/
+def afterRead (inp : Input) (s : St) : St :=
+  let P := readerResult inp s
+  let db := convertDb P.db
+  let x := BibData.addExtraCitations db s.citations inp.minCrossrefs
+  let m := BibData.removeMissing db x.1
+  { s with db := some db, preamble := P.db.preamble.flatten, citations := m.1,
+           reports := s.reports ++ P.errs.map Report.bib ++ x.2.map Report.data ++ m.2.map Report.data }
+
+theorem runCommand_read_eq (fuel : Nat) (inp : Input) (c : Command) (s : St) (h : upper c.name = "READ".toList) :
+    runCommand fuel inp c s = .ok (afterRead inp s) := by
+  unfold runCommand
+  simp only [h]
+  rw [if_pos trivial]
+  simp only [afterRead, readerResult, readerStart]
+  cases inp.alt with
+  | none => rfl
+  | some x => rfl
+
+/-! ### the current entry and the output outside `EXECUTE` / `ITERATE` / `REVERSE` -/
+
+theorem iterate_cur (fuel : Nat) (o : VarObj) (ks : List Str) (s s' : St) (h : iterate fuel o ks s = .ok s') :
+    (ks = [] ∧ s' = s) ∨ s'.cur = none := by
+  induction ks generalizing s with
+  | nil => cases h; exact .inl ⟨rfl, rfl⟩
+  | cons k ks ih =>
+    right
+    simp only [iterate] at h
+    split at h
+    · cases h
+    · split at h
+      · cases h
+      · split at h
+        · cases h
+        · rcases ih _ h with ⟨_, rfl⟩ | h'
+          · rfl
+          · exact h'
+
+/-- a command leaves no entry current if none was current before, and every command other than
+`EXECUTE` / `ITERATE` / `REVERSE` leaves the output (lines, buffer, trace of output calls) alone -/
+theorem runCommand_cur_out (fuel : Nat) (inp : Input) (c : Command) (s s' : St) (h : runCommand fuel inp c s = .ok s') :
+    (s.cur = none → s'.cur = none) ∧
+    (upper c.name ≠ "EXECUTE".toList → upper c.name ≠ "ITERATE".toList → upper c.name ≠ "REVERSE".toList → SameOut s s') := by
+  have ofv : ∀ {s s' : St}, s' = { s with vars := s'.vars } → (s.cur = none → s'.cur = none) ∧ SameOut s s' := by
+    intro s s' e; rw [e]; exact ⟨fun h => h, rfl, rfl, rfl⟩
+  unfold runCommand at h
+  simp only at h
+  split at h
+  · -- ENTRY
+    split at h
+    · split at h
+      · cases h
+      · rename_i s1 h1
+        split at h
+        · cases h
+        · rename_i s2 h2
+          split at h
+          · cases h
+          · rename_i s3 h3
+            have := ofv (s := s) (s' := s') (by
+              rw [declare_eq _ _ _ _ h, declare_eq _ _ _ _ h3, addVariable_eq h2, declare_eq _ _ _ _ h1])
+            exact ⟨this.1, fun _ _ _ => this.2⟩
+    · cases h
+  · split at h
+    · -- EXECUTE
+      rename_i hex
+      split at h
+      · exact ⟨fun hc => by rw [((exec_frame fuel).2.2.1 _ _ _ h).cur]; exact hc, fun hn => absurd hex hn⟩
+      · cases h
+    · split at h
+      · -- FUNCTION
+        split at h
+        · split at h
+          · cases h
+          · have := ofv (addVariable_eq h); exact ⟨this.1, fun _ _ _ => this.2⟩
+        · cases h
+      · split at h
+        · -- INTEGERS
+          split at h
+          · have := ofv (overwrite_eq _ _ _ _ h); exact ⟨this.1, fun _ _ _ => this.2⟩
+          · cases h
+        · split at h
+          · -- STRINGS
+            split at h
+            · have := ofv (overwrite_eq _ _ _ _ h); exact ⟨this.1, fun _ _ _ => this.2⟩
+            · cases h
+          · split at h
+            · -- MACRO
+              split at h
+              · split at h
+                · cases h; exact ⟨fun hc => hc, fun _ _ _ => ⟨rfl, rfl, rfl⟩⟩
+                · cases h
+              · cases h
+            · split at h
+              · -- READ
+                cases h; exact ⟨fun hc => hc, fun _ _ _ => ⟨rfl, rfl, rfl⟩⟩
+              · split at h
+                · -- ITERATE / REVERSE
+                  rename_i hit
+                  split at h
+                  · split at h
+                    · cases h
+                    · split at h
+                      · cases h
+                      · refine ⟨fun hc => ?_, fun _ h2 h3 => (hit.elim (fun e => absurd e h2) (fun e => absurd e h3))⟩
+                        rcases iterate_cur _ _ _ _ _ h with ⟨_, rfl⟩ | h'
+                        · exact hc
+                        · exact h'
+                  · cases h
+                · split at h
+                  · -- SORT
+                    split at h
+                    · cases h
+                    · cases h; exact ⟨fun hc => hc, fun _ _ _ => ⟨rfl, rfl, rfl⟩⟩
+                  · cases h
+
+theorem runProgram_cur_none (fuel : Nat) (inp : Input) (prog : Program) (s s' : St) (hs : s.cur = none)
+    (h : runProgram fuel inp prog s = .ok s') : s'.cur = none := by
+  induction prog generalizing s with
+  | nil => cases h; exact hs
+  | cons c cs ih =>
+    simp only [runProgram] at h
+    split at h
+    · cases h
+    · rename_i s1 h1
+      exact ih s1 ((runCommand_cur_out fuel inp c s s1 h1).1 hs) h
 
 end Pybtex.Interp
